@@ -408,7 +408,12 @@ def emptiness_is_not_decided_by_error_swallowing_probes(ctx):
                 continue
             n += 1
             # def-use closure of everything the store depends on (value, guards, and their definitions)
-            exprs = [st.value] + [g_[0] for g_ in guards(st)]
+            def _gexprs(node):
+                out_ = []
+                for c_, _pol in guards(node):
+                    out_.append(c_ if isinstance(c_, ast.AST) else getattr(c_, "stmt", None))
+                return [e_ for e_ in out_ if isinstance(e_, ast.AST)]
+            exprs = [st.value] + _gexprs(st)
             seen_names = set()
             work = [x.id for e in exprs for x in ast.walk(e) if isinstance(x, ast.Name)]
             while work:
@@ -418,7 +423,7 @@ def emptiness_is_not_decided_by_error_swallowing_probes(ctx):
                 seen_names.add(nm)
                 for a in walk_local(f.node):
                     if isinstance(a, ast.Assign) and any(isinstance(t, ast.Name) and t.id == nm for t in a.targets):
-                        more = [a.value] + [g_[0] for g_ in guards(a)]
+                        more = [a.value] + _gexprs(a)
                         exprs.extend(more)
                         work.extend(x.id for e in more for x in ast.walk(e) if isinstance(x, ast.Name))
             probes = [c for e in exprs for c in ast.walk(e) if isinstance(c, ast.Call) and norm(c.func) in PATH_PROBES]
